@@ -361,9 +361,14 @@ Section OpsOk.
     destruct hit; [apply IH, Hrest|]. unfold present in Hp. rewrite Hp. unfold canon_l in Hc. rewrite Hc, N.eqb_refl. cbn. apply IH, Hrest.
   Qed.
 
-  Lemma op_pull_ok s n sv :
+  Lemma reorder_incl ord dm d : In d (reorder ord dm) -> In d dm.
+  Proof.
+    unfold reorder. rewrite in_app_iff, in_flat_map. intros [[h [_ H]]|H]; apply filter_In in H; apply H.
+  Qed.
+
+  Lemma op_pull_ok s n sv ord :
     Inv s -> (match sv with Some v => served_ok size_of v = true | None => True end) ->
-    Rok (Some (get_existing (readable_names s) n)) s (fst (op_pull size_of s n sv)).
+    Rok (Some (get_existing (readable_names s) n)) s (fst (op_pull size_of s n sv ord)).
   Proof.
     intros HI Hg. unfold op_pull, op_pull_gen. set (g := get_existing (readable_names s) n).
     destruct sv as [v|]; [|apply Rok_init].
@@ -380,7 +385,7 @@ Section OpsOk.
     { unfold ProofsInv.man_ok. rewrite Forall_forall in *. intros l Hl. specialize (Hg1 l Hl). apply andb_true_iff in Hg1 as [Hc Hs].
       split; [exact Hc|]. split; [apply Hp, Hl | apply N.eqb_eq; exact Hs]. }
     cbn [fst]. apply delete_unused_ok; [exact HI | apply write_manifest_ok; assumption|].
-    apply Forall_forall. intros d Hd. apply filter_In in Hd as [Hd _].
+    apply Forall_forall. intros d Hd. apply reorder_incl in Hd. apply filter_In in Hd as [Hd _].
     destruct (mget g s) as [[mo|]|] eqn:Eo; try contradiction.
     apply in_map_iff in Hd as [l [<- Hl]].
     assert (Hcan := listed_canon s g mo HI (mget_listed _ _ _ Eo)). rewrite Forall_forall in Hcan. apply Hcan, Hl.
@@ -389,7 +394,7 @@ Section OpsOk.
   (** ** every operation *)
   Theorem op_run_ok s o : Inv s -> op_guard size_of s o = true -> Rok (op_target s o) s (fst (op_run size_of s o)).
   Proof.
-    intros HI Hg. destruct o as [d c|q|a b|n|n sv|]; cbn [op_run op_target op_guard] in *.
+    intros HI Hg. destruct o as [d c|q|a b|n|n sv ord|]; cbn [op_run op_target op_guard] in *.
     - apply op_blob_ok.
     - apply op_create_ok; assumption.
     - apply op_copy_ok; assumption.
